@@ -298,6 +298,56 @@ pub fn run(tier: &str) -> i32 {
     });
     all.merge(Acc::merge_all(accs));
 
+    // ---- free-running, several threads at once under one key: nonces must be distinct across threads too
+    {
+        let per_thread = if quick { 512 } else { 4096 };
+        let threads = 6usize;
+        let mut tacc = Acc::default();
+        for p in &protos {
+            for l in [Layer::Generic, Layer::Prelude] {
+                let sets: Vec<Vec<Vec<u8>>> = std::thread::scope(|s| {
+                    let hs: Vec<_> = (0..threads)
+                        .map(|_| {
+                            s.spawn(|| {
+                                adapter::freeze_default_clock();
+                                let key = domains::official_key();
+                                let ops = vec![BOp::Claim(ClaimSpec::auto("data", json!("same"))), BOp::Build];
+                                let mut v = Vec::with_capacity(per_thread);
+                                for _ in 0..per_thread {
+                                    let (ev, _) = adapter::with_rng_observer(|| adapter::build_history(*p, l, &key, &ops));
+                                    if let Some(BEvent::Built(Out::Ok(t))) = ev.last() {
+                                        if let Some(n) = wire_nonce(*p, t) {
+                                            v.push(n);
+                                        }
+                                    }
+                                }
+                                v
+                            })
+                        })
+                        .collect();
+                    hs.into_iter().map(|h| h.join().unwrap_or_default()).collect()
+                });
+                let total: usize = sets.iter().map(|v| v.len()).sum();
+                let distinct: HashSet<&Vec<u8>> = sets.iter().flatten().collect();
+                tacc.executions += total as u64;
+                tacc.impl_calls += total as u64;
+                tacc.bump_n("multi-thread-builds", total as u64);
+                if total != threads * per_thread {
+                    tacc.violate(format!("C10|{}|multi-thread-build-failed", p.name()), "a build failed in the multi-thread pass".into(), json!({"nonce_case": NonceCase { proto: *p, history: vec![HOp::NewGeneric, HOp::ClaimsSame, HOp::Build], script: vec![] }}));
+                }
+                if distinct.len() != total {
+                    tacc.violate(
+                        format!("C10|{}|nonce-reuse-across-threads", p.name()),
+                        format!("{} threads x {} builds under one key ({} layer): only {} distinct nonces among {}", threads, per_thread, l.name(), distinct.len(), total),
+                        json!({"nonce_case": NonceCase { proto: *p, history: vec![HOp::NewGeneric, HOp::ClaimsSame, HOp::Build], script: vec![] }, "multi_thread": true}),
+                    );
+                }
+            }
+        }
+        tacc.notes.insert("multi_thread_pass".into(), json!({"threads": threads, "builds_per_thread": per_thread, "per": "version x layer"}));
+        all.merge(tacc);
+    }
+
     all.states = all.distinct.len() as u64;
     if all.controls_ok == 0 {
         crate::report::machinery_error("C10: no build was re-derived at the core layer (vacuous)");
